@@ -953,7 +953,14 @@ def _check(case):
 
 
 def check_case(case):
+    if case.get("part") == "bc":            # multipatch Dirichlet data (shared with C14 part D)
+        from props import c14_system
+        return [("multipatch-" + k, m) for k, m in c14_system.bc_problems(case)]
     return list(_check(case)[0])
+
+
+def _mp_worker(case):
+    return check_case(case)
 
 
 def _worker(case):
@@ -1030,6 +1037,19 @@ def run(ctx):
         out.part(p, cases=1, calls=info["calls"], failing_cases=1 if probs else 0)
         for key, msg in probs:
             out.add_violation(key, "%s: %s" % (_describe(case), msg), case)
+    # boundary data in the glued numbering of a multipatch space: every outer face of small complexes, the condition
+    # list in grouped / interleaved / reversed / alternating order (cases and oracle shared with C14 part D)
+    from props import c14_system
+    mcases = c14_system.bc_cases(ctx.tier)
+    for case, probs in zip(mcases, par.pmap(_mp_worker, mcases, min_parallel=4)):
+        out.evaluations += 1
+        out.transitions += 4
+        out.traces += 1
+        shapes.add(("mpbc", repr(sorted((k, repr(v)) for k, v in case["cfg"].items()))))
+        out.nontrivial.add(("mpbc", repr(sorted((k, repr(v)) for k, v in case["cfg"].items()))))
+        out.part("multipatch-bc", cases=1, calls=4, failing_cases=1 if probs else 0)
+        for key, msg in probs:
+            out.add_violation(key, "multipatch %s: %s" % (case["cfg"], msg), case)
     out.states = len(shapes)
     out.part("rls", cases_with_unsorted_indices=nunsorted)
     for p, w in sorted(worst.items()):
@@ -1054,6 +1074,6 @@ def run(ctx):
         "index sets without repetition; bcs given as ndarray pairs, or list/tuple pairs as in test_solution_1d; scalar "
         "values only together with ndarray indices",
         "knot vectors are open, on [0,1] (time axis also [0,2]); geo.grid_eval is taken as input data (checked by C07)",
-        "Multipatch.compute_dirichlet_bcs is covered by C14 part D",
+        "Multipatch.compute_dirichlet_bcs: cases and oracle shared with C14 part D",
     ]
     return out
